@@ -106,7 +106,8 @@ struct Ops {
 	};
 	struct V2 : public VATA::MTBDDPkg::VoidApply2Functor<V2, Data, Data> {
 		std::set<std::pair<int,int>> seen;
-		void ApplyOperation(const Data& a, const Data& b) { seen.insert({C::dec(a), C::dec(b)}); }
+		bool stopAfterFirst = false;
+		void ApplyOperation(const Data& a, const Data& b) { seen.insert({C::dec(a), C::dec(b)}); if (stopAfterFirst) this->stopProcessing(); }
 	};
 	GCC_DIAG_ON(effc++)
 
@@ -123,8 +124,9 @@ struct Ops {
 	std::set<std::string> ops;
 	static constexpr size_t MAXP = 7;
 	// functor OBJECTS are re-used across calls, as library code does (every call must start from a clean cache)
-	F1 f1_; F2 f2_; F3 f3_; F2 projMax_, projMin_; Ite ite_;
+	F1 f1_; F2 f2_; F3 f3_; F2 projMax_, projMin_; Ite ite_; V2 v2_;
 	bool projected = false;
+	bool structural = false;         // C18: this history may use Project / Rename / ExtendWith / GetMtbddForPrefix
 
 	Ops(eng::Ctx& c, bool lifetimeMode) : ctx(c), lifetime(lifetimeMode) {}
 
@@ -226,13 +228,17 @@ struct Ops {
 		uint32_t op = r[0] % 16;
 		if (pool.empty() && op >= 3) op = op % 3;
 		// lifetime mode (C18): only the operations the property names (construction, copy, assignment, apply, destruction)
-		if (lifetime && op >= 9 && op <= 11) op = 3 + (op - 8);
+		// lifetime mode (C18): two thirds of the histories use only the operations the property names (construction, copy,
+		// assignment, apply, destruction) and are subject to the node-store size law; the others may use every operation
+		if (lifetime && !structural && op >= 8 && op <= 11) op = 3 + (op - 8);
+		if (lifetime && structural && op >= 8 && op <= 11) projected = true;      // no size law for these histories
 		auto pick = [&](uint32_t v) { return static_cast<size_t>(v % pool.size()); };
 		std::string what;
 		switch (op) {
 			case 0: case 1: {   // constructor (cube, value, default)
 				what = "construct";
-				const std::string cb = cube(r[1]);
+				// 1/16 of the cubes fix no variable at all (value everywhere, the default nowhere)
+				const std::string cb = (r[1] % 16 == 0) ? std::string(static_cast<size_t>(NV), 'X') : cube(r[1]);
 				const int val = static_cast<int>(r[2] % C::R), def = static_cast<int>(r[3] % C::R);
 				log << step << ":cons(" << cb << "," << val << "," << def << ") ";
 				Table t; t.def = def;
@@ -388,12 +394,22 @@ struct Ops {
 				what = "void-apply";
 				size_t i = pick(r[1]), j = pick(r[2]);
 				log << step << ":visit(m" << i << ",m" << j << ") ";
-				V1 v1; V2 v2;
+				V1 v1;
+				V2& v2 = v2_;      // one visitor object for the whole history
+				size_t stoppedAfter = 0;
 				{
 					eng::LibSection ls(ctx, "mtbdd:void-apply");
 					v1(*pool[i].m);
+					if (r[3] % 2) {
+						// a run that stops itself at the first leaf pair, then a complete run with the same object
+						v2.seen.clear(); v2.stopAfterFirst = true;
+						v2(*pool[i].m, *pool[j].m);
+						stoppedAfter = v2.seen.size();
+					}
+					v2.seen.clear(); v2.stopAfterFirst = false;
 					v2(*pool[i].m, *pool[j].m);
 				}
+				if ((r[3] % 2) && stoppedAfter != 1) fail("mtbdd:void-apply2:stop", "a visitor that stops at the first leaf pair visited " + std::to_string(stoppedAfter) + " pairs");
 				std::set<int> w1; std::set<std::pair<int,int>> w2;
 				for (int x = 0; x < NX; ++x) { const size_t ux = static_cast<size_t>(x); w1.insert(pool[i].t.v[ux]); w2.insert({pool[i].t.v[ux], pool[j].t.v[ux]}); }
 				if (v1.seen != w1) fail("mtbdd:void-apply1", "visited leaves differ from the values the function takes");
